@@ -139,6 +139,15 @@ class _Extract:
                     # declared one; the elements are those of the Vec `<vec_fn>(..)` declared by the unit (its contract
                     # states which elements, in which order, the iterator yields)
                     want_expr, vec_decl, vec_name = over[:3]
+                    if isinstance(want_expr, dict):
+                        # several iterator expressions are accepted, each with its own Vec helper (whose contract says
+                        # which items THAT iterator yields): the one the code uses is looked up
+                        mh0 = re.match(r'for\s+(?:[A-Za-z_][A-Za-z0-9_]*|\([^)]*\))\s+in\s+(.*?)\s*$', norm_ws(item.src.text[kw:ob]), re.S)
+                        got0 = mh0.group(1).strip() if mh0 else None
+                        alts = {norm_ws(k_): v_ for k_, v_ in want_expr.items()}
+                        if got0 not in alts:
+                            raise LostAnchor('%s: loop #%d iterates `%s`, none of the declared expressions %s' % (item.name, k, got0, sorted(alts)))
+                        want_expr, vec_decl = got0, alts[got0]
                     elem = (over[3] if len(over) > 3 else '{v}[{i}]').format(v=vec_name, i=iname)   # how element i is obtained
                     mh = re.match(r'for\s+([A-Za-z_][A-Za-z0-9_]*|\([^)]*\))\s+in\s+(.*?)\s*$', head, re.S)   # identifier or tuple pattern
                     got = norm_ws(item.src.text[kw:ob]).split(' in ', 1)[1].strip() if mh else None
